@@ -250,6 +250,20 @@ func sysChild() {
 			out.Flush()
 			continue
 		}
+		if strings.HasPrefix(line, "syshotcold ") {
+			bts, _ := json.Marshal(runHotCold(root, line))
+			out.Write(bts)
+			out.WriteByte('\n')
+			out.Flush()
+			continue
+		}
+		if strings.HasPrefix(line, "sysbulks ") {
+			bts, _ := json.Marshal(runSysBulks(root, line))
+			out.Write(bts)
+			out.WriteByte('\n')
+			out.Flush()
+			continue
+		}
 		if strings.HasPrefix(line, "sysagg ") {
 			bts, _ := json.Marshal(runSysAgg(root, line))
 			out.Write(bts)
@@ -654,6 +668,52 @@ func runSysBatch(lines []string, ch *vh.Channel, orc *vh.Oracle, rep *vh.Report,
 		if strings.HasPrefix(line, "grpc ") || strings.HasPrefix(line, "proxyreq ") {
 			orc.Case(line, true, "api-boundary")
 			handleAPI(line, append([]byte(nil), sc.Bytes()...), orc)
+			continue
+		}
+		if strings.HasPrefix(line, "syshotcold ") {
+			var br sysResp
+			if err := json.Unmarshal(sc.Bytes(), &br); err != nil {
+				orc.Error = "child output: " + err.Error()
+				break
+			}
+			orc.Case(line, true, "hot-cold-with-eviction")
+			if br.Err != "" {
+				orc.Error = "syshotcold child: " + br.Err
+			} else if len(br.B) != 1 || br.B[0] != br.A {
+				as, bs := strings.Split(br.A, " ; "), strings.Split(strings.Join(br.B, ""), " ; ")
+				what := "answers differ"
+				for i := range as {
+					if i < len(bs) && as[i] != bs[i] {
+						what = fmt.Sprintf("all documents of the window: %s ; proxy over hot (after eviction) + cold: %s", as[i], bs[i])
+						break
+					}
+				}
+				rep.Violate(vh.Violation{Site: "fracmanager/fracmanager.go:shrinkSizes", Class: "hot-store-answers-for-evicted-range",
+					What: what, Replay: []string{line}})
+			}
+			continue
+		}
+		if strings.HasPrefix(line, "sysbulks ") {
+			var br sysResp
+			if err := json.Unmarshal(sc.Bytes(), &br); err != nil {
+				orc.Error = "child output: " + err.Error()
+				break
+			}
+			orc.Case(line, true, "bulks-into-one-active-fraction")
+			if br.Err != "" {
+				orc.Error = "sysbulks child: " + br.Err
+			} else if len(br.B) != 1 || br.B[0] != br.A {
+				as, bs := strings.Split(br.A, " ; "), strings.Split(strings.Join(br.B, ""), " ; ")
+				what := "answers differ"
+				for i := range as {
+					if i < len(bs) && as[i] != bs[i] {
+						what = fmt.Sprintf("all documents in one bulk: %s ; same documents in several bulks with searches in between: %s", as[i], bs[i])
+						break
+					}
+				}
+				rep.Violate(vh.Violation{Site: "frac/active_lids.go:TokenLIDs.GetLIDs", Class: "result-depends-on-bulk-split-of-active-fraction",
+					What: what, Replay: []string{line}})
+			}
 			continue
 		}
 		if strings.HasPrefix(line, "sysagg ") {
